@@ -18,6 +18,7 @@ import matplotlib.pyplot as plt  # noqa: E402
 PL = pyrepseq.plotting
 
 PROPERTY = "C19"
+QUICK_SCALE = 2
 RULE = ("equal-length sequence lists (2-30 x length 1..15) over small and amino-acid alphabets, optionally pre-aligned with '-' "
         "(every column keeps >= 1 residue); count vectors with NaNs x normalize_x/y, scalex/y; label vectors (str or int) x "
         "min_count in {None,1,2,3} x NumPy seed; integer point clouds with repeats; paired / single-chain tables (3-12 rows) with "
@@ -297,7 +298,7 @@ def aligned_seqs(draw, gaps=True, max_n=30, max_len=15):
     L = draw(st.integers(1, max_len))
     n = draw(st.integers(2, max_n))
     founder = draw(st.lists(st.sampled_from(alpha), min_size=L, max_size=L))
-    varpos = draw(st.lists(st.integers(0, L - 1), max_size=4, unique=True))
+    varpos = draw(st.lists(st.integers(0, L - 1), min_size=min(2, L), max_size=5, unique=True))
     seqs = []
     for _ in range(n):
         s = list(founder)
@@ -346,9 +347,11 @@ def color_case(draw, tier="quick"):
     kind = draw(st.sampled_from(["str", "int"]))
     pool = ["A", "B", "epi 1", "é", "zz", "K", "L", "M"] if kind == "str" else [1, 2, 3, 10, -4, 7, 100, 0]
     k = draw(st.integers(1, 8))
-    labels = draw(st.lists(st.sampled_from(pool[:k]), min_size=1, max_size=30))
+    # multiplicities by construction: rare (1-2) and frequent (3-6) labels side by side, then shuffled
+    counts = [draw(st.sampled_from([1, 1, 2, 3, 4, 6])) for _ in range(k)]
+    labels = list(draw(st.permutations([l for l, c in zip(pool[:k], counts) for _ in range(c)])))
     which = draw(st.sampled_from(["hls", "tableau"]))
-    return {"labels": labels, "min_count": draw(st.sampled_from([None, 1, 2, 3])), "np_seed": draw(st.integers(0, 2 ** 32 - 1)),
+    return {"labels": labels, "min_count": draw(st.sampled_from([None, 1, 2, 2, 3, 3])), "np_seed": draw(st.integers(0, 2 ** 32 - 1)),
             "which": which, "as": draw(st.sampled_from(["list", "array", "series"]))}
 
 
